@@ -4,6 +4,7 @@ import DaskModel.Model.ChunksPlanner
 import DaskModel.Model.ChunksAuto
 import DaskModel.Model.Creation
 import DaskModel.Model.CreationFloat
+import DaskModel.Model.DiagonalNd
 import DaskModel.Model.Structural
 import DaskModel.Model.ShufflePlan
 import DaskModel.Model.ReshapeRechunk
@@ -827,9 +828,40 @@ def hDiagonal : Handler := handler fun args =>
     | none => pure (.list [.sym "raised"])
   | _ => none
 
+/-- `(diagonal_nd ((chunks…)…) offset axis1 axis2)` ↦ `(ok axis1 axis2 ((out_chunks…)…) (((out…) (in…) k)…))` | `(raised)` -/
+def hDiagonalNd : Handler := handler fun args =>
+  match args with
+  | [cs, off, a1, a2] => do
+    match diagonalNdPlan (← cs.toNatss?) (← off.toInt?) (← a1.toInt?) (← a2.toInt?) with
+    | some (x1, x2, oc, tasks) =>
+      pure (.list [.sym "ok", .int x1, .int x2, SExp.ofNatss oc,
+                   .list (tasks.map (fun t => .list [SExp.ofNats t.out, SExp.ofNats t.inp, .int t.k]))])
+    | none => pure (.list [.sym "raised"])
+  | _ => none
+
+/-- `(diagonal_read ((chunks…)…) a1 a2 k (q…) t)` ↦ the global input position read, or `none` -/
+def hDiagonalRead : Handler := handler fun args =>
+  match args with
+  | [cs, a1, a2, k, q, t] => do
+    match diagonalNdRead (← cs.toNatss?) (← a1.toNat?) (← a2.toNat?) (← k.toInt?) (← q.toNats?) (← t.toNat?) with
+    | some p => pure (SExp.ofNats p)
+    | none => pure (.sym "none")
+  | _ => none
+
+/-- `(diag_k (chunks…) (xs…) k)` ↦ the `(n+|k|)²` matrix of `diag(v, k)` through the plan -/
+def hDiagK : Handler := handler fun args =>
+  match args with
+  | [cs, xs, k] => do
+    let cs ← cs.toNats?
+    let xs ← xs.toInts?
+    let k ← k.toInt?
+    let m := Chunks.sum cs + k.natAbs
+    pure (encIntss ((List.range m).map (fun r => (List.range m).map (fun c => (diagKDen (0 : Int) cs xs k r c).getD 99))))
+  | _ => none
+
 
 def table : List (String × Handler) := [
-  ("shuffle", hShuffle), ("diagonal", hDiagonal),
+  ("shuffle", hShuffle), ("diagonal", hDiagonal), ("diagonal_nd", hDiagonalNd), ("diagonal_read", hDiagonalRead), ("diag_k", hDiagK),
   ("searchsorted", hSearchsorted), ("bincount_w", hBincountW), ("unique_inverse", hUniqueInverse), ("bincount", hBincount), ("histogram", hHistogram), ("unique", hUnique),
   ("unique_internal", hUniqueInternal), ("nonzero", hNonzero), ("coarsen_sum", hCoarsen),
   ("aligned_coarsen", hAlignedCoarsen), ("da_coarsen", hDaCoarsen), ("histdd", hHistdd), ("hist2d", hHist2d),
